@@ -176,7 +176,7 @@ func init() {
 	core.Explanations["C07"] = "Decides necessary structural conditions of 'the stored resume position only moves forward along command boundaries': " +
 		"(R07.1) no negative constant (the 'none yet' initialiser of the sender's last-offset variable) can reach the offset argument of the checkpoint HSET or the in-memory checkpoint without a dominating comparison that excludes it, followed inter-procedurally through the sender closures; " +
 		"(R07.2) every non-constant origin of that argument is the Offset of an item received from the parser, and the parser computes item offsets as start offset + decoder offset; " +
-		"(R07.3) full-sync completion stores the snapshot's own offset. Not decided: monotonicity of the sequence of values written at run time across restarts."
+		"(R07.3) full-sync completion stores the snapshot's own offset; (R07.4/R07.5) re-keying the checkpoint after a source id change writes the new position (in the old one's database) before deleting the old one on every path, so no intermediate state lacks the position. Not decided: monotonicity of the sequence of values written at run time across restarts."
 }
 
 // negReach follows v backwards (through phis, cells, closure parameters and
@@ -358,6 +358,7 @@ func c07(w *core.World, r *core.Report) {
 	}
 	checkItemOffsets(w, r, "(*syncer.RedisOutput).parseAofCommand")
 
+	ruleUpdateCheckpoint(w, r, "R07.4", "R07.5")
 	r.Rule("R07.3", "full-sync completion stores the snapshot's offset (reader.Left()) and nothing else", 1)
 	if f := fn(w, r, "(*syncer.RedisOutput).sendRdb"); f != nil {
 		n := 0
